@@ -259,10 +259,12 @@ func (c *Config) cert(hostname string) (*tls.Certificate, error) {
 
 		// Check validity of the certificate for hostname match, expiry, etc. In
 		// particular, if the cached certificate has expired, create a new one.
-		if _, err := tlsc.Leaf.Verify(x509.VerifyOptions{
+		// A certificate issued under a previous organization is replaced as well.
+		_, err := tlsc.Leaf.Verify(x509.VerifyOptions{
 			DNSName: hostname,
 			Roots:   c.roots,
-		}); err == nil {
+		})
+		if org := tlsc.Leaf.Subject.Organization; err == nil && len(org) == 1 && org[0] == c.org {
 			return tlsc, nil
 		}
 
